@@ -41,6 +41,15 @@ theorem C11_table_executions_race_free : NoRace accesses :=
       fun h => h.elim (fun h => by subst h; rw [hi] at hj; cases hj; exact absurd rfl hne)
         fun h => Or.inr (discipline_orders C11_lock_discipline hv hc h hj hi (Ne.symm hne) ⟨hcf.1.symm, hcf.2.symm⟩)
 
+table_obligation in
+set_option maxRecDepth 100000 in
+/-- Every row of the extracted table is well formed (names each lock once, lists no channel both as closed
+after it and as observed closed before it) — so `C11_discipline_iff_no_race` applies to it: for this
+table the lock discipline is not only sufficient but also necessary for the absence of races in the
+modelled executions (a pair the discipline does not order has a conforming racy execution). -/
+theorem C11_table_rows_well_formed : ∀ a ∈ accesses, WfRow a :=
+  fun a ha => (wfRowB_iff a).mp (List.all_eq_true.mp (show accesses.all wfRowB = true by decide +kernel) a ha)
+
 -- …and there are such rows
 table_obligation in
 set_option maxRecDepth 100000 in
